@@ -87,14 +87,14 @@ func capEval(tr *Tracer, rng *rand.Rand, caps [][][2]int, v int, custom bool, vi
 		var c *capability.Capability
 		// NewCapability pairs its arguments; usable when no range has an empty lower bound
 		// followed by anything (an empty Introduced is indistinguishable from "no range")
+		// (NewCapability takes the bounds in pairs, an empty lower bound included; a last argument without a
+		// partner is a range without upper bound - only an empty one there cannot be told from "nothing")
 		usable := viaNew
 		for j, r := range rs {
-			if r[0] == 0 && !(j == len(rs)-1 && r[1] == 0) {
-				usable = false
-			}
 			if r[0] == 0 && r[1] == 0 {
 				usable = false
 			}
+			_ = j
 		}
 		if usable {
 			var args []string
@@ -135,6 +135,37 @@ func capEval(tr *Tracer, rng *rand.Rand, caps [][][2]int, v int, custom bool, vi
 		}
 	}
 	tr.Emit(Ev{"ev": "Eval", "caps": ic, "v": v, "err": err != nil, "has": has, "foreign": foreign, "custom": custom})
+	if err != nil || v < 0 || len(cs) == 0 || rng.Intn(3) != 0 {
+		return
+	}
+	// the ranges of the capabilities change (no range any more, another range, the same one) and the same
+	// version object is evaluated again: what it reports is what holds now
+	caps2 := make([][][]int, len(cs))
+	for i, c := range cs {
+		caps2[i] = [][]int{}
+		c.VersionRanges = nil
+		switch rng.Intn(3) {
+		case 0:
+		case 1:
+			for _, r := range caps[i] {
+				c.VersionRanges = append(c.VersionRanges, capability.VersionRange{Introduced: str(r[0]), Removed: str(r[1])})
+				caps2[i] = append(caps2[i], []int{r[0], r[1]})
+			}
+		default:
+			lo := 1 + rng.Intn(len(capGrid)-1)
+			hi := lo + 1 + rng.Intn(len(capGrid)-lo)
+			c.VersionRanges = []capability.VersionRange{{Introduced: str(lo), Removed: str(hi)}}
+			caps2[i] = [][]int{{lo, hi}}
+		}
+	}
+	err2 := t.SetCapabilities(ver)
+	has2 := []bool{}
+	if err2 == nil {
+		for _, c := range cs {
+			has2 = append(has2, ver.Has(c))
+		}
+	}
+	tr.Emit(Ev{"ev": "Eval", "caps": caps2, "v": v, "err": err2 != nil, "has": has2, "foreign": false, "custom": custom, "again": true})
 }
 
 func capMain(args []string) error {
